@@ -105,7 +105,7 @@ def run(tier, repo):
                 rp.fail("CONFIG-INVARIANT", "%s/%s" % (c, p), site(f) if f else p, "function %s compiles to different code under configuration %s (cfg-dependent path in a parser)" % (p, c))
             if not diff:
                 rp.ok("CONFIG-INVARIANT", "src/", "bodies/" + c, "%d function bodies identical to the default build" % len([p for p in base if p in T[c]]))
-        rp.floor("functions_compared", len(base), 800)
+        rp.floor("functions_compared", len(base), 600)
         # ADTs identical too
         for c in ("nostd", "serialize"):
             a0 = {a["path"]: json.dumps(strip_pos(a), sort_keys=True) for a in FS["default"].raw["adts"]}
